@@ -178,17 +178,38 @@ def run(F, tier, res):
     reserved = {}
     for q in extractors:
         bpar = [i for i in range(1, F.bodies[q]['mir']['arg_count'] + 1) if F.bodies[q]['mir']['locals'][i] == 'bool']
+        # the function as it behaves for a non-decoration style string: branches on the flag follow the false arm only
+        S0 = F.cfg(q)
+        cut = set()
+        sw_of_call = {}
+        for (sb, op, arms, other) in Ru.switches(F, q):
+            rs = F.trace(q, op)
+            tt, ft = Ru.bool_edges(arms, other)
+            if Ru.negations(F, q, op) % 2 == 1:
+                tt, ft = ft, tt
+            if any(r[0] == 'param' and r[1] in bpar and not r[2] for r in rs) and not any(r[0] == 'call' for r in rs):
+                if tt is not None:
+                    cut.add((sb, tt))
+            for r in rs:
+                if r[0] == 'call' and r[1].endswith(('::eq', '::ne')):
+                    sw_of_call.setdefault(r[2], []).append((sb, ft if r[1].endswith('::ne') else tt))
+        S1 = {b_: [x for x in ss if (b_, x) not in cut] for b_, ss in S0.items()}
+        live = reach(S1, 0) | {0}
+        heads = {i for i, c in F.calls(q) if callee_of(c).endswith('::next')}
+        keeps = {i for i, c in F.calls(q) if callee_of(c).endswith(('::push', '::push_str', '::extend', '::insert'))}
         for i, c in F.calls(q):
             if not callee_of(c).endswith(('::eq', '::ne')):
                 continue
             lits = [v[1] for a in c['args'] for v in F.operand_literals(q, a) if v[0] == 'str']
-            if len(lits) != 1:
+            if len(lits) != 1 or i not in live:
                 continue
-            # conditional on the "this is a decoration style string" flag?
-            cond = Ru.guarded_by(F, q, i, lambda rs: any(r[0] == 'param' and r[1] in bpar and not r[2] for r in rs)) or \
-                Ru.guarded_by(F, q, i, lambda rs: any(r[0] == 'param' and r[1] in bpar and not r[2] for r in rs), want_true=False)
-            if not cond:
-                reserved[lits[0]] = q
+            # on the edge where the token equals the literal: is the token still handed on (pushed to the remaining words)?
+            for (sb, eq_edge) in sw_of_call.get(i, []):
+                if eq_edge is None or sb not in live:
+                    continue
+                after = reach(S1, [eq_edge], avoid=heads) | {eq_edge}
+                if not (after & keeps):
+                    reserved[lits[0]] = q
     if extractors:
         for f in sorted(dt):
             if f not in ATTR_FIELDS:
